@@ -10,7 +10,7 @@ K-C01: a generated PROGRAM of typed remora statements is rendered as C++ TUs (co
 import json, os, re, subprocess, time
 from concurrent.futures import ThreadPoolExecutor
 from vlib import core
-from checks import c01gen, c01neg, c01dir
+from checks import c01gen, c01neg, c01dir, c01kern
 
 TRUST = ("Lean 4.33 kernel; axioms at most propext/Classical.choice/Quot.sound (audited per run by #audit_module); ")
 MANIFEST = dict(
@@ -31,7 +31,28 @@ MANIFEST = dict(
         "product into ceil(K/T) tiles starting at b*T of min(T,K-b*T) columns gives the defining sum, for every T>0 and K), "
         "strided_disjoint_of_extent (two strided proxies are disjoint when the LAST cell base+(size-1)*stride of one lies "
         "before the other), each with a witness that the neighbouring wrong variant (zero seed, tile start b*current, extent "
-        "base+size) differs. The model is tied to the real code by an exact correspondence: "
+        "base+size) differs; (v) BLOCKED KERNELS with every blocking constant a parameter (Model/RemoraKernels.lean: packA, packB, "
+        "ugemm, mgemm, denseGemm = pack_A_dense, pack_B_dense, ugemm, mgemm, dense_gemm of kernels/default; assignTransBlocked = "
+        "the transposing matrix_assign / matrix_assign_functor): denseGemm_correct (for all operand shapes M x K, K x N and ALL "
+        "positive MC, NC, KC, MR, NR the packed three-level block gemm leaves C(i,j) + [[alpha*prod(a,b)]](i,j) in every target "
+        "element and writes nothing outside the M x N target; end to end: packing layout, zero padding of partial stripes, micro "
+        "tiles through the temporary block, macro tiles, KC tiling), mgemm_spec, packA_at / packB_at (closed form of the packed "
+        "layout), denseGemm_correct_lib (the constants of gemm_block_size<double|float|long double>), "
+        "denseGemm_transposed_dispatch (column-major target = transposed call), packedSize_le (the packed stripes fit the "
+        "MC*KC / NC*KC buffers when MR | MC, NR | NC, with a witness that they do not otherwise), gemm_tile_address (the pointer "
+        "arithmetic of the C++ addresses the tile the model updates), assignTransBlocked_correct (for every block size BS > 0 and "
+        "every shape each target element becomes f(m(i,j), e(i,j)) exactly once, nothing else is written) and its _lib instance "
+        "(8 / 16). The constants are REGENERATED from the C++ on every run by translate/remora_kernels.py into "
+        "Gen/RemoraKernelConsts.lean together with generated theorems gemm*_ok (all positive, mr | mc, nr | nc), and the same "
+        "translator pins the loop skeleton of every modelled function by hash (a changed loop is a broken tie). "
+        "The model is tied to the real code by an exact correspondence: "
+        "(k) the kernels called DIRECTLY (harness/c01k.cpp): bindings::pack_A_dense / pack_B_dense (packed buffers compared cell by "
+        "cell, overrun sentinel) and bindings::mgemm for five (MR,NR) pairs on tiles around MR / NR inside a larger matrix, "
+        "kernels::gemm for double, float and long double (three constant sets) on shapes just below / at / above every constant "
+        "in its own dimension and for all 8 orientation mixes, the transposing assignment kernels for = += -= *= around 8 / 16, "
+        "the column-major fold_rows around 16, and expressions mixing float / double / int value types (element-wise, gemv, gemm, "
+        "outer product, compound assignment into an int target, reductions; denotation = the rational element-wise definition, "
+        "data keep every intermediate exact in every participating type); "
         "(a) a DIRECTED program, run in both tiers: aliasing assignment between every ordered pair of dense proxy kinds of one "
         "storage (row/column/diagonal/linearisation and sub-ranges of them in several nested spellings; container/transpose/"
         "sub-matrix/rows/columns), target behind, before and on the source, plain and all compound forms, bare proxies and "
@@ -43,18 +64,27 @@ MANIFEST = dict(
         "constant of kernels/default and kernels/cblas that the expression layer reaches (gemm MR=4 NR=6 MC=128 KC=512 "
         "NC=1020, BLAS fallback tile 512, fold_rows 16, transposing assign 8/16, trmv/trmm 128) and 0/1-sized; "
         "(b) generated programs of typed statements (all assignment forms, explicit aliasing incl. two proxies of one "
-        "variable, proxies, products incl. triangular, reductions, value classes of one sign, shapes incl. 0 and 1); both "
+        "variable, proxies up to nesting depth 5 as targets and operands - sub-range of a row of the transpose of a sub-matrix, "
+        "sub-range of a sub-range of a row of rows of a transpose, sub-range of the diagonal of a sub-matrix of a transpose, "
+        "transpose of a sub-matrix of the transpose of rows / columns -, dense and compressed operands, products incl. "
+        "triangular, reductions, value classes of one sign, shapes incl. 0 and 1); both "
         "compiled per run against the repo headers with and without REMORA_USE_CBLAS under "
         "ASan/UBSan, compared value-for-value with the model run on rationals, plus an independent naive-loop oracle "
         "(defining formulas on plain std::vector copies) that turns a disagreement into a concrete failing input."),
   note=TRUST + "floating-point rounding is not modelled (data are kept exactly representable, comparison is exact); "
-       "kernel dispatch (default/cblas kernels, blockwise vs element-wise evaluation), the template meta-program that "
-       "selects which rule fires, sparse containers, the packing/micro-kernels of the block gemm and the BLAS library itself are "
-       "exercised by the correspondence only (the theorems of (iv) are about the blocking index arithmetic and the fold, "
-       "not about the C++ text); shapes beyond the listed boundary values are sampled, not exhausted; the "
+       "which kernel the tag dispatch selects (default/cblas, blockwise vs element-wise evaluation), the template meta-program that "
+       "selects which rule fires, sparse containers and sparse kernels, gemv / trmv / trmm / syrk / tpmv / conv2d kernels and "
+       "the BLAS library itself are exercised by the correspondence only; the kernel theorems of (iv)/(v) are about executable "
+       "models whose loops mirror the C++ (tile updates are pointwise block additions, buffers are index functions; the SIMD "
+       "vector type and alignment are not modelled), tied by the pinned skeletons, the regenerated constants and the direct-call "
+       "correspondence; 7 of the 93 rewrite-rule bodies cannot be instantiated by any C++ program (confirmed by the compiler on "
+       "every run) and 17 of the 86 sound rules are not part of the generated executable optimiser (their lemmas are proved, the "
+       "optimiser skips them); max/min of an EMPTY operand returns numeric_limits lowest()/max() and is outside the denotation; "
+       "mixed value types are tied on exactly representable data only (int division and float rounding are not modelled); "
+       "shapes beyond the listed boundary values are sampled, not exhausted; the "
        "assignment theorems are about the element loop on an abstract lawful memory, the hand-written model is tied by "
        "the correspondence, the rule table by translation.",
-  technique="Lean 4 proof over a deep embedding + per-run translation of the rewrite-rule table into lemmas + differential correspondence with generated C++ programs (ASan/UBSan, both BLAS configurations)",
+  technique="Lean 4 proof over a deep embedding and over executable blocked-kernel models + per-run translation of the rewrite-rule table into lemmas and of the kernels' blocking constants (loop skeletons pinned) + differential correspondence with generated C++ programs and with directly called kernels (ASan/UBSan, both BLAS configurations)",
   design="§6 C01")
 
 FINISH = dict(level="proof",
@@ -64,7 +94,8 @@ FINISH = dict(level="proof",
                    "counted separately as directed_evaluations); a statement is non-trivial if its right-hand side has depth >= 1; "
                    "distinct = distinct op text")
 
-LAKE_TARGETS = ["SharkVerif.Props.C01", "SharkVerif.Gen.RemoraRules", "SharkVerif.Gen.RemoraOpt", "drv_c01"]
+LAKE_TARGETS = ["SharkVerif.Props.C01", "SharkVerif.Gen.RemoraRules", "SharkVerif.Gen.RemoraOpt",
+                "SharkVerif.Gen.RemoraKernelConsts", "SharkVerif.Lemmas.RemoraKernels", "drv_c01"]
 JOBS = int(os.environ.get("C01_JOBS", "4"))
 # one thread in the harness: OpenMP/OpenBLAS worker threads spin-wait, which makes the many short harness
 # runs of a shrink very slow on a loaded machine (and a single thread keeps the kernels' summation order fixed)
@@ -259,6 +290,7 @@ def record_distribution(ctx, cases, infos):
         ctx.hist("form", inf["form"])
         ctx.hist("rhs_depth", inf["depth"])
         ctx.hist("target", inf["target_kind"] + ":" + ("+".join(inf["target_ops"]) or "container"))
+        ctx.hist("target_proxy_nesting", len(inf["target_ops"]))
         if inf["aliased"]:
             ctx.count("statements_with_target_on_rhs")
         for o in set(inf["ops"]):
@@ -278,9 +310,11 @@ CONFIGS = [("default", []), ("cblas", ["-DREMORA_USE_CBLAS"])]
 
 
 def translate(ctx):
+    ok = True
     if os.path.exists(os.path.join(core.VERIF, "translate", "remora_rules.py")):
-        return ctx.translate("remora_rules.py")
-    return True
+        ok = ctx.translate("remora_rules.py")
+    # blocking constants of the dense kernels + pinned loop skeletons (Gen/RemoraKernelConsts.lean)
+    return ctx.translate("remora_kernels.py") and ok
 
 
 def build(ctx):
@@ -298,6 +332,7 @@ def build(ctx):
 
 def run(ctx):
     ctx.trusted += ["correspondence harness harness/c01.cpp + c01_harness.hpp + generator checks/c01gen.py",
+                    "kernel harness harness/c01k.cpp + checks/c01kern.py; translator translate/remora_kernels.py (constants, skeleton hashes)",
                     "translator translate/remora_rules.py (renders the rewrite table as Lean lemmas)",
                     "g++ / ASan / UBSan runtime for the real code's behaviour (not a theorem)"]
     ctx.assumptions += ["operands respect the documented size preconditions (REMORA_SIZE_CHECK / REMORA_RANGE_CHECK)",
@@ -319,13 +354,14 @@ def run(ctx):
         mods.append("SharkVerif.Gen.RemoraRules")
     if os.path.exists(os.path.join(core.LEAN, "SharkVerif", "Gen", "RemoraOpt.lean")):
         mods.append("SharkVerif.Gen.RemoraOpt")
+    mods += ["SharkVerif.Gen.RemoraKernelConsts", "SharkVerif.Lemmas.RemoraKernels"]
     ok = ctx.prove(mods)
     ctx.cov["rewrite_rule_lemmas_proved"] = sum(1 for n in ctx.obligations if ".rule_" in n and not n.endswith("_wf")) if ok else 0
     ctx.cov["rewrite_rule_wf_lemmas_proved"] = sum(1 for n in ctx.obligations if ".rule_" in n and n.endswith("_wf")) if ok else 0
     # every generated theorem must have been seen by the audit (one AUDIT line each)
     if ok:
         audited = {n.split(".")[-1] for n in ctx.obligations}
-        for gen in ("RemoraRules.lean", "RemoraOpt.lean"):
+        for gen in ("RemoraRules.lean", "RemoraOpt.lean", "RemoraKernelConsts.lean"):
             gp = os.path.join(core.LEAN, "SharkVerif", "Gen", gen)
             if os.path.exists(gp):
                 missing = [t for t in re.findall(r"^theorem (\S+)", open(gp).read(), re.M) if t not in audited]
@@ -345,6 +381,8 @@ def run(ctx):
     if os.environ.get("C01_ONLY_CORPUS"):      # development aid: corpus cases only
         ncases = 0
     calc = load_calc()
+    # ---- 0. the blocked kernels called directly against the kernel models (constants from the translator)
+    c01kern.run(ctx, drv)
     # ---- 1. corpus first: its own small program
     dense_c, sparse_c = corpus_program(ctx, calc)
     sparse_ok = True
